@@ -26,19 +26,29 @@ func valueFieldByName(v reflect.Value, fields []string) (out reflect.Value, ok b
 		v = v.Elem()
 	}
 
+	// a field can only be looked up by name in a structure, so a path
+	// continuing below something else does not designate any field
+	if v.Kind() != reflect.Struct || len(fields) == 0 {
+		return out, false
+	}
+
 	out = v.FieldByName(fields[0])
+
+	// unknown field or field we cannot get the value from (not exported)
+	if !out.IsValid() || !out.CanInterface() {
+		return reflect.Value{}, false
+	}
 
 	// if pointer we dereference
 	if out.Kind() == reflect.Ptr {
 		if out.IsZero() {
-			out = reflect.New(out.Type().Elem())
+			out = reflect.New(out.Type().Elem()).Elem()
 		} else {
 			out = out.Elem()
 		}
-		return valueFieldByName(out, fields[1:])
 	}
 
-	if out.Kind() == reflect.Struct && len(fields) > 1 {
+	if len(fields) > 1 {
 		return valueFieldByName(out, fields[1:])
 	}
 
